@@ -617,6 +617,21 @@ func runC01(c *mon.Ctx) {
 		desc := fmt.Sprintf("kind=%s glyphs=%d cmap=%s layout=%s", info.Kind, info.NGlyphs, info.CMap, info.Layout)
 		c01roundTrip(c, k, "constructed", f, info, desc, childOut)
 	})
+	c.Stratum("cff-offset-sweep", c.N(320, 6000), func(k *mon.Case) {
+		// small CFF fonts whose copyright string grows byte by byte: the
+		// section offsets inside the CFF table cross the sizes at which an
+		// offset operand needs one more byte (the writer lays the table out
+		// until the offsets stop moving)
+		r := k.Rng
+		f, info := fontgen.Font(r, fontgen.Opts{Kind: []string{"cff", "cid"}[k.Index%2], MinGlyphs: 1 + k.Index/2%8, MaxGlyphs: 1 + k.Index/2%8, Plain: true, CMap: "4"})
+		if f.CreationTime.IsZero() && f.ModificationTime.IsZero() {
+			f.ModificationTime = f.ModificationTime.AddDate(2001, 0, 0)
+		}
+		l := 780 + (k.Index/16)%400
+		f.Copyright = strings.Repeat("c", l)
+		desc := fmt.Sprintf("kind=%s glyphs=%d copyright=%d bytes", info.Kind, info.NGlyphs, l)
+		c01roundTrip(c, k, "cff-offset-sweep", f, info, desc, childOut)
+	})
 	c.Stratum("rich-layout", c.N(150, 4000), func(k *mon.Case) {
 		// whole fonts whose GSUB/GPOS/GDEF tables use every lookup type and
 		// format the encoders support (contextual and chaining rules, mark
